@@ -221,6 +221,10 @@ func c01Run(r *tr.Run, cs c01Case) (injected int) {
 				case "herr":
 					return nil, errScripted
 				case "hpanic":
+					if (n+st)%2 == 0 {
+						var nilMap map[string]int
+						nilMap["x"] = 1 // a genuine runtime error (nil map write), not a panic("...") call
+					}
 					panic("scripted handler panic")
 				}
 				mkOut := func(id string) *message.Message {
